@@ -1163,6 +1163,14 @@ def n_textwrap_indent(eng, args, kwargs, st):
     bounds = "\n\r\x0b\x0c\x1c\x1d\x1e\x85"
     has_b = z3.Or(*[z3.Contains(t, z3.StringVal(c)) for c in bounds])
     blank = z3.InRe(t, smt.WS)
+    if smt.quick_check(st.pc, has_b) == "unsat":
+        # the path condition excludes every line boundary: one line; fork on "blank" so that the result keeps its literal skeleton (prefix ++ text)
+        eng.assumed.add("textwrap.indent: modelled for a text without line boundaries (within Latin-1; U+2028/U+2029 are outside the solver alphabet used): "
+                        "prefix + text unless blank; uninterpreted otherwise")
+        outs = []
+        for flag, s2 in eng.fork(blank, st):
+            outs.append((text if flag else Sym(z3.Concat(pfx, t), "str"), s2))
+        return outs
     r = z3.If(has_b, z3.Function("textwrap_indent", S, S, S)(t, pfx), z3.If(blank, t, z3.Concat(pfx, t)))
     eng.assumed.add("textwrap.indent: modelled for a text without line boundaries (within Latin-1; U+2028/U+2029 are outside the solver alphabet used): "
                     "prefix + text unless blank; uninterpreted otherwise")
